@@ -1,6 +1,6 @@
 #!/bin/bash
 # usage: tools/runall.sh quick|thorough [ids...]
-cd /verif
+cd ${VERIF_ROOT:-/verif}
 tier=${1:-quick}; shift
 ids="$@"
 if [ -z "$ids" ]; then ids=$(python3 -c "import json;print(' '.join(c['property_id'] for c in json.load(open('MANIFEST.json'))['checks']))"); fi
